@@ -261,7 +261,7 @@ func c15Matrix() []*c15Case {
 
 var c15List = c15Matrix()
 
-func (p *c15) NumCases(tier string, seed int64) int { return len(c15List) + tierN(tier, 0, 6000) }
+func (p *c15) NumCases(tier string, seed int64) int { return len(c15List) + tierN(tier, 2000, 150000) }
 
 func (p *c15) gen(tier string, seed int64, idx int) *c15Case {
 	if idx < len(c15List) {
